@@ -132,7 +132,24 @@ namespace AIToolbox {
         default_basis(lp);
 
         // print_lp(pimpl_->lp_.get());
-        const auto result = ::solve(lp);
+
+        // With the default (devex) pricing the dual simplex can cycle forever on
+        // the degenerate LPs our users build (seen with coefficients ~2^20). We
+        // give it a generous iteration budget; if it is exhausted we solve again
+        // with the first-index (Bland-type) rule, which cannot cycle.
+        long long budget = 1000 + 50ll * (get_Nrows(lp) + get_Ncolumns(lp));
+        put_abortfunc(lp, [](lprec * l, void * b) -> int {
+            return get_total_iter(l) > *static_cast<long long *>(b);
+        }, &budget);
+        auto result = ::solve(lp);
+        put_abortfunc(lp, nullptr, nullptr);
+        if (result == USERABORT) {
+            const int pricing = get_pivoting(lp);
+            set_pivoting(lp, PRICER_FIRSTINDEX);
+            default_basis(lp);
+            result = ::solve(lp);
+            set_pivoting(lp, pricing);
+        }
 
         REAL * vp;
         get_ptr_variables(lp, &vp);
